@@ -106,11 +106,16 @@ Walk(j, done, bad) ==
                                                       THEN "C05w_malformed" ELSE "C06l_lost"]>>
       \* C03 along histories: after an Ok export WITH dependencies, every import of every file of the closure names a
       \* file that exists (whatever was exported before, by whichever entry point)
+      \* (only the import lines that the declarations of THIS closure need: a type exported earlier without its
+      \* dependencies may share the file)
+      Needs(p, spec) == \E n \in Closure(c) : Exportable(n) /\ ~IsErr(Loc(c.dir, n)) /\ Loc(c.dir, n) = p /\
+                            \E m \in DOMAIN T(n).rendered.imports : T(n).rendered.imports[m].spec = spec
       b6 == IF ok /\ c.entry # "export" /\
                \E pr \in pairs : IsFileAt(after, pr[1]) /\ Blobs[BlobAt(after, pr[1])].ok /\
-                   \E k \in DOMAIN Blobs[BlobAt(after, pr[1])].imports :
-                       LET tgt == Resolve(Front(pr[1]), Blobs[BlobAt(after, pr[1])].imports[k].chars, FALSE) IN
-                       IsErr(tgt) \/ ~IsFileAt(after, tgt)
+                   LET blob == Blobs[BlobAt(after, pr[1])] IN
+                   \E k \in DOMAIN blob.imports :
+                       /\ Needs(pr[1], blob.imports[k].spec)
+                       /\ LET tgt == Resolve(Front(pr[1]), blob.import_chars[k], FALSE) IN IsErr(tgt) \/ ~IsFileAt(after, tgt)
             THEN <<[step |-> j, tag |-> "C03i_dangling_import"]>> ELSE <<>>
   IN Walk(j + 1, done2, bad \o b1 \o b2 \o b3 \o b4 \o b5 \o b6)
 
